@@ -120,227 +120,6 @@ proof fn lemma_mapped_ok<V>(n: NfaBuilder<char, V>, sid: int, table: Seq<u32>, a
 
 // ---- stage B: the partially built array encodes the placed part of the NFA ----
 spec fn code_of(table: Seq<u32>, c: char) -> u32 { map_code(table, c as u32).unwrap() }
-
-
-// the array `st` encodes the placed part of the NFA.
-//   map: NFA id -> slot (1 = not placed), inv: slot -> NFA id (non-root states), owner: slot with a BASE -> NFA id,
-//   done: states whose children are all placed, cur: the state whose children are being placed (-1: none),
-//   with BASE `base` and sorted (code, child) list s1 of which the first k are placed.
-#[verifier::opaque]
-spec fn cwb<V>(n: NfaBuilder<char, V>, st: Seq<State>, tb: Seq<u32>, map: Seq<u32>, inv: Map<int, int>, owner: Map<int, int>,
-               done: Set<int>, cur: int, base: u32, s1: Seq<(u32, u32)>, k: int) -> bool {
-    let len = n.states@.len();
-    // (A) the placement map
-    &&& map.len() == len && map[0] == 0 && map[1] == 1
-    &&& forall|t: int| 0 <= t < len ==> (#[trigger] map[t]) < st.len()
-    // (B) inv is its inverse on the non-root states
-    &&& !inv.contains_key(0) && !inv.contains_key(1)
-    &&& forall|t: int| 2 <= t < len && #[trigger] map[t] != 1 ==> inv.contains_key(map[t] as int) && inv[map[t] as int] == t
-    &&& forall|y: int| #[trigger] inv.contains_key(y) ==> 2 <= inv[y] < len && map[inv[y]] == y && 0 <= y < st.len()
-    // (C) CHECK: the parent's slot for occupied slots, the dead index everywhere else
-    &&& forall|y: int| 0 <= y < st.len() && !inv.contains_key(y) ==> (#[trigger] st[y]).check == 1
-    &&& forall|y: int| #[trigger] inv.contains_key(y) ==> st[y].check == map[nfa_parent(n, inv[y]).0]
-    // (D) BASE: finished states have theirs and their children sit at base ^ code; every BASE has an owner
-    &&& forall|s: int, c: char| done.contains(s) && #[trigger] nfa_edges(n, s).contains_key(c) ==>
-            st[map[s] as int].base.is_some() && map[nfa_edges(n, s)[c] as int] == st[map[s] as int].base.unwrap()@ ^ code_of(tb, c)
-    &&& forall|y: int| 0 <= y < st.len() && (#[trigger] st[y]).base.is_some() ==>
-            owner.contains_key(y) && done.contains(owner[y]) && 0 <= owner[y] < len && map[owner[y]] == y
-    // (E) placed non-root states have a finished (or the current) parent; (F) finished states are placed
-    &&& forall|t: int| 2 <= t < len && #[trigger] map[t] != 1 ==> done.contains(nfa_parent(n, t).0) || nfa_parent(n, t).0 == cur
-    &&& forall|s: int| #[trigger] done.contains(s) ==> 0 <= s < len && s != 1 && map[s] != 1
-    // (G) the state in progress
-    &&& (cur >= 0 ==> {
-            &&& 0 <= cur < len && cur != 1 && map[cur] != 1 && !done.contains(cur) && 0 <= k <= s1.len()
-            &&& forall|j: int| 0 <= j < k ==> map[(#[trigger] s1[j]).1 as int] == base ^ s1[j].0
-            &&& forall|j: int| k <= j < s1.len() ==> map[(#[trigger] s1[j]).1 as int] == 1
-            &&& forall|t: int| 2 <= t < len && #[trigger] map[t] != 1 && nfa_parent(n, t).0 == cur ==> exists|j: int| 0 <= j < k && s1[j].1 == t
-        })
-}
-
-spec fn map0(len: nat) -> Seq<u32> { Seq::new(len, |i: int| if i == 0 { 0u32 } else { 1u32 }) }
-
-proof fn lemma_cwb_init<V>(n: NfaBuilder<char, V>, st: Seq<State>, tb: Seq<u32>, map: Seq<u32>)
-    requires nfa_tree(n), st.len() >= 2, map.len() == n.states@.len(), map[0] == 0,
-        forall|t: int| 1 <= t < map.len() ==> #[trigger] map[t] == 1,
-        forall|y: int| 0 <= y < st.len() ==> (#[trigger] st[y]).check == 1 && st[y].base.is_none(),
-    ensures cwb(n, st, tb, map, Map::empty(), Map::empty(), Set::empty(), -1, 0, Seq::empty(), 0),
-{
-    reveal(cwb);
-}
-
-proof fn lemma_cwb_facts<V>(n: NfaBuilder<char, V>, st: Seq<State>, tb: Seq<u32>, map: Seq<u32>, inv: Map<int, int>, owner: Map<int, int>,
-                            done: Set<int>, cur: int, base: u32, s1: Seq<(u32, u32)>, k: int)
-    requires cwb(n, st, tb, map, inv, owner, done, cur, base, s1, k),
-    ensures map.len() == n.states@.len(), map[0] == 0, map[1] == 1,
-        !inv.contains_key(0) && !inv.contains_key(1),
-        forall|y: int| #[trigger] inv.contains_key(y) ==> 0 <= y < st.len(),
-        forall|s: int| #[trigger] done.contains(s) ==> 0 <= s < map.len() && s != 1 && map[s] != 1,
-{
-    reveal(cwb);
-}
-
-// a leaf (no edges) is finished without touching the array
-proof fn lemma_cwb_leaf<V>(n: NfaBuilder<char, V>, st: Seq<State>, tb: Seq<u32>, map: Seq<u32>, inv: Map<int, int>, owner: Map<int, int>,
-                           done: Set<int>, sid: int)
-    requires cwb(n, st, tb, map, inv, owner, done, -1, 0, Seq::empty(), 0), 0 <= sid < n.states@.len(), sid != 1, map[sid] != 1,
-        forall|c: char| !nfa_edges(n, sid).contains_key(c),
-    ensures cwb(n, st, tb, map, inv, owner, done.insert(sid), -1, 0, Seq::empty(), 0),
-{
-    reveal(cwb);
-}
-
-// a new block of default states is appended
-proof fn lemma_cwb_extend<V>(n: NfaBuilder<char, V>, st: Seq<State>, st2: Seq<State>, tb: Seq<u32>, map: Seq<u32>, inv: Map<int, int>, owner: Map<int, int>,
-                             done: Set<int>, cur: int, base: u32, s1: Seq<(u32, u32)>, k: int)
-    requires cwb(n, st, tb, map, inv, owner, done, cur, base, s1, k), st2.len() >= st.len(),
-        forall|y: int| 0 <= y < st.len() ==> #[trigger] st2[y] == st[y],
-        forall|y: int| st.len() <= y < st2.len() ==> (#[trigger] st2[y]).check == 1 && st2[y].base.is_none(),
-    ensures cwb(n, st2, tb, map, inv, owner, done, cur, base, s1, k),
-{
-    reveal(cwb);
-    assert forall|y: int| 0 <= y < st2.len() && !inv.contains_key(y) implies (#[trigger] st2[y]).check == 1 by { if y < st.len() { assert(st2[y] == st[y]); } }
-    assert forall|y: int| #[trigger] inv.contains_key(y) implies st2[y].check == map[nfa_parent(n, inv[y]).0] by { assert(st2[y] == st[y]); }
-    assert forall|s: int, c: char| done.contains(s) && #[trigger] nfa_edges(n, s).contains_key(c) implies
-            st2[map[s] as int].base.is_some() && map[nfa_edges(n, s)[c] as int] == st2[map[s] as int].base.unwrap()@ ^ code_of(tb, c) by {
-        assert(st2[map[s] as int] == st[map[s] as int]);
-    }
-    assert forall|y: int| 0 <= y < st2.len() && (#[trigger] st2[y]).base.is_some() implies
-            owner.contains_key(y) && done.contains(owner[y]) && 0 <= owner[y] < n.states@.len() && map[owner[y]] == y by {
-        if y < st.len() { assert(st2[y] == st[y]); }
-    }
-}
-
-// start placing the children of sid: none of them is placed yet
-proof fn lemma_cwb_begin<V>(n: NfaBuilder<char, V>, st: Seq<State>, tb: Seq<u32>, map: Seq<u32>, inv: Map<int, int>, owner: Map<int, int>,
-                            done: Set<int>, sid: int, base: u32, bl: u32, s1: Seq<(u32, u32)>)
-    requires cwb(n, st, tb, map, inv, owner, done, -1, 0, Seq::empty(), 0), nfa_tree(n), 0 <= sid < n.states@.len(), sid != 1, map[sid] != 1, !done.contains(sid),
-        mapped_ok(n, sid, tb, bl, s1),
-    ensures cwb(n, st, tb, map, inv, owner, done, sid, base, s1, 0),
-{
-    reveal(cwb);
-    assert forall|j: int| 0 <= j < s1.len() implies map[(#[trigger] s1[j]).1 as int] == 1 by {
-        let t = s1[j].1 as int;
-        let label = choose|label: char| pair_of(n, sid, tb, label, s1[j]);
-        assert(nfa_edges(n, sid).contains_key(label));
-        assert(nfa_parent(n, t) == (sid, label));
-        if map[t] != 1 { assert(done.contains(nfa_parent(n, t).0) || nfa_parent(n, t).0 == -1); }
-    }
-    assert forall|t: int| 2 <= t < n.states@.len() && #[trigger] map[t] != 1 && nfa_parent(n, t).0 == sid implies exists|j: int| 0 <= j < 0 && s1[j].1 == t by {
-        assert(done.contains(nfa_parent(n, t).0) || nfa_parent(n, t).0 == -1);
-    }
-}
-
-// one child placed: slot y = base ^ code gets CHECK = slot of sid, the child's id is recorded
-proof fn lemma_cwb_step<V>(n: NfaBuilder<char, V>, st: Seq<State>, st2: Seq<State>, tb: Seq<u32>, map: Seq<u32>, map2: Seq<u32>, inv: Map<int, int>, owner: Map<int, int>,
-                           done: Set<int>, sid: int, base: u32, bl: u32, s1: Seq<(u32, u32)>, k: int)
-    requires cwb(n, st, tb, map, inv, owner, done, sid, base, s1, k), nfa_tree(n), mapped_ok(n, sid, tb, bl, s1), 0 <= k < s1.len(), 0 <= sid,
-        ({ let y = (base ^ s1[k].0) as int; let child = s1[k].1 as int;
-           &&& 2 <= y < st.len() && !inv.contains_key(y)
-           &&& st2.len() == st.len() && st2[y] == (State { check: map[sid], ..st[y] })
-           &&& forall|z: int| 0 <= z < st.len() && z != y ==> #[trigger] st2[z] == st[z]
-           &&& map2 == map.update(child, y as u32) }),
-    ensures cwb(n, st2, tb, map2, inv.insert((base ^ s1[k].0) as int, s1[k].1 as int), owner, done, sid, base, s1, k + 1),
-{
-    let len = n.states@.len();
-    let y = (base ^ s1[k].0) as int; let child = s1[k].1 as int;
-    let inv2 = inv.insert(y, child);
-    assert(pair_ok(n, sid, tb, s1[k]));
-    let label = choose|label: char| pair_of(n, sid, tb, label, s1[k]);
-    assert(nfa_edges(n, sid).contains_key(label) && nfa_edges(n, sid)[label] == child);
-    assert(0 <= sid < len) by { reveal(cwb); }
-    assert(nfa_parent(n, nfa_edges(n, sid)[label] as int) == (sid, label));
-    assert(nfa_parent(n, child) == (sid, label));
-    reveal(cwb);
-    assert(map[child] == 1);
-    assert(2 <= child < len);
-    // no placed state sits at y
-    assert forall|t: int| 0 <= t < len && t != child implies #[trigger] map2[t] == map[t] && map[t] != y by {
-        if map[t] == y { if t >= 2 { assert(inv.contains_key(map[t] as int)); } }
-    }
-    assert forall|t: int| 0 <= t < len implies (#[trigger] map2[t]) < st2.len() by { if t != child { assert(map2[t] == map[t]); } }
-    assert forall|t: int| 2 <= t < len && #[trigger] map2[t] != 1 implies inv2.contains_key(map2[t] as int) && inv2[map2[t] as int] == t by {
-        if t != child { assert(map2[t] == map[t]); assert(inv.contains_key(map[t] as int)); }
-    }
-    assert forall|z: int| #[trigger] inv2.contains_key(z) implies 2 <= inv2[z] < len && map2[inv2[z]] == z && 0 <= z < st2.len() by {
-        if z != y { assert(inv.contains_key(z)); assert(inv[z] != child) by { if inv[z] == child { assert(map[inv[z]] == z); } } }
-    }
-    assert forall|z: int| 0 <= z < st2.len() && !inv2.contains_key(z) implies (#[trigger] st2[z]).check == 1 by { assert(z != y); assert(st2[z] == st[z]); }
-    assert forall|z: int| #[trigger] inv2.contains_key(z) implies st2[z].check == map2[nfa_parent(n, inv2[z]).0] by {
-        if z == y { assert(map2[sid] == map[sid]) by { assert(sid != child); } }
-        else {
-            assert(inv.contains_key(z)); assert(st2[z] == st[z]);
-            let p = nfa_parent(n, inv[z]).0;
-            assert(nfa_parent_ok(n, inv[z], nfa_parent(n, inv[z])));
-            assert(p != child) by { if p == child { assert(map[inv[z]] != 1); assert(done.contains(p) || p == sid); } }
-        }
-    }
-    assert forall|s: int, c: char| done.contains(s) && #[trigger] nfa_edges(n, s).contains_key(c) implies
-            st2[map2[s] as int].base.is_some() && map2[nfa_edges(n, s)[c] as int] == st2[map2[s] as int].base.unwrap()@ ^ code_of(tb, c) by {
-        assert(s != child); assert(map2[s] == map[s]); assert(map[s] != y) by { if s >= 2 { assert(inv.contains_key(map[s] as int)); } }
-        assert(st2[map[s] as int] == st[map[s] as int]);
-        let t = nfa_edges(n, s)[c] as int;
-        assert(t != child) by { if t == child { assert(nfa_parent(n, child) == (s, c)); } }
-    }
-    assert forall|z: int| 0 <= z < st2.len() && (#[trigger] st2[z]).base.is_some() implies
-            owner.contains_key(z) && done.contains(owner[z]) && 0 <= owner[z] < len && map2[owner[z]] == z by {
-        assert(st[z].base == st2[z].base);
-        assert(owner[z] != child);
-    }
-    assert forall|t: int| 2 <= t < len && #[trigger] map2[t] != 1 implies done.contains(nfa_parent(n, t).0) || nfa_parent(n, t).0 == sid by {
-        if t != child { assert(map2[t] == map[t]); }
-    }
-    assert forall|s: int| #[trigger] done.contains(s) implies 0 <= s < len && s != 1 && map2[s] != 1 by { assert(s != child); }
-    assert(map2[sid] == map[sid]);
-    assert forall|j: int| 0 <= j < k + 1 implies map2[(#[trigger] s1[j]).1 as int] == base ^ s1[j].0 by {
-        if j < k { assert(s1[j].1 != s1[k].1) by { if s1[j].1 == s1[k].1 { let lj = choose|l: char| pair_of(n, sid, tb, l, s1[j]); assert(nfa_parent(n, child) == (sid, lj)); assert(lj == label); } } }
-    }
-    assert forall|j: int| k + 1 <= j < s1.len() implies map2[(#[trigger] s1[j]).1 as int] == 1 by {
-        assert(s1[j].1 != s1[k].1) by { if s1[j].1 == s1[k].1 { let lj = choose|l: char| pair_of(n, sid, tb, l, s1[j]); assert(nfa_parent(n, child) == (sid, lj)); assert(lj == label); } }
-    }
-    assert forall|t: int| 2 <= t < len && #[trigger] map2[t] != 1 && nfa_parent(n, t).0 == sid implies exists|j: int| 0 <= j < k + 1 && s1[j].1 == t by {
-        if t == child { assert(s1[k].1 == t); }
-        else { assert(map2[t] == map[t]); let j = choose|j: int| 0 <= j < k && s1[j].1 == t; assert(0 <= j < k + 1 && s1[j].1 == t); }
-    }
-}
-
-// all children placed: the state receives its BASE and is finished
-proof fn lemma_cwb_finish<V>(n: NfaBuilder<char, V>, st: Seq<State>, st2: Seq<State>, tb: Seq<u32>, map: Seq<u32>, inv: Map<int, int>, owner: Map<int, int>,
-                             done: Set<int>, sid: int, base: NonZeroU32, bl: u32, s1: Seq<(u32, u32)>)
-    requires cwb(n, st, tb, map, inv, owner, done, sid, base@, s1, s1.len() as int), nfa_tree(n), mapped_ok(n, sid, tb, bl, s1),
-        ({ let x = map[sid] as int;
-           &&& 0 <= sid < map.len() && 0 <= x < st.len()
-           &&& st2.len() == st.len() && st2[x] == (State { base: Some(base), ..st[x] })
-           &&& forall|z: int| 0 <= z < st.len() && z != x ==> #[trigger] st2[z] == st[z] }),
-    ensures cwb(n, st2, tb, map, inv, owner.insert(map[sid] as int, sid), done.insert(sid), -1, 0, Seq::empty(), 0),
-{
-    reveal(cwb);
-    let len = n.states@.len(); let x = map[sid] as int;
-    let owner2 = owner.insert(x, sid); let done2 = done.insert(sid);
-    assert forall|z: int| 0 <= z < st2.len() && !inv.contains_key(z) implies (#[trigger] st2[z]).check == 1 by { assert(st2[z].check == st[z].check); }
-    assert forall|z: int| #[trigger] inv.contains_key(z) implies st2[z].check == map[nfa_parent(n, inv[z]).0] by { assert(st2[z].check == st[z].check); }
-    assert forall|s: int, c: char| done2.contains(s) && #[trigger] nfa_edges(n, s).contains_key(c) implies
-            st2[map[s] as int].base.is_some() && map[nfa_edges(n, s)[c] as int] == st2[map[s] as int].base.unwrap()@ ^ code_of(tb, c) by {
-        if s == sid {
-            let j = choose|j: int| 0 <= j < s1.len() && pair_of(n, sid, tb, c, #[trigger] s1[j]);
-            assert(map[s1[j].1 as int] == base@ ^ s1[j].0);
-        } else {
-            // distinct placed states occupy distinct slots
-            assert(map[s] != x) by {
-                if map[s] == x {
-                    if s >= 2 { assert(inv[map[s] as int] == s); if sid >= 2 { assert(inv[map[sid] as int] == sid); } else { assert(!inv.contains_key(0)); } }
-                    else { assert(s == 0); if sid >= 2 { assert(inv.contains_key(map[sid] as int)); } }
-                }
-            }
-            assert(st2[map[s] as int] == st[map[s] as int]);
-        }
-    }
-    assert forall|z: int| 0 <= z < st2.len() && (#[trigger] st2[z]).base.is_some() implies
-            owner2.contains_key(z) && done2.contains(owner2[z]) && 0 <= owner2[z] < len && map[owner2[z]] == z by {
-        if z != x { assert(st2[z] == st[z]); }
-    }
-    assert forall|t: int| 2 <= t < len && #[trigger] map[t] != 1 implies done2.contains(nfa_parent(n, t).0) || nfa_parent(n, t).0 == -1 by { }
-}
-
 // what build_double_array establishes: the array encodes the NFA through the placement map idmap
 #[verifier::opaque]
 spec fn cw_encodes<V>(st: Seq<State>, table: Seq<u32>, n: NfaBuilder<char, V>, idmap: Seq<u32>) -> bool {
@@ -364,87 +143,6 @@ spec fn cw_encodes<V>(st: Seq<State>, table: Seq<u32>, n: NfaBuilder<char, V>, i
     // fail links and output positions are copied through idmap
     &&& forall|s: int| 0 <= s < len && s != 1 ==> (#[trigger] st[idmap[s] as int]).fail == (if n.states@[s].fail == 1 { 1u32 } else { idmap[n.states@[s].fail as int] })
             && st[idmap[s] as int].output_pos == n.states@[s].output_pos
-}
-
-// pointwise accessors of the opaque cwb (cur = -1 form)
-proof fn lemma_cwb_basic<V>(n: NfaBuilder<char, V>, st: Seq<State>, tb: Seq<u32>, map: Seq<u32>, inv: Map<int, int>, owner: Map<int, int>, done: Set<int>, t: int)
-    requires cwb(n, st, tb, map, inv, owner, done, -1, 0, Seq::empty(), 0), 0 <= t < n.states@.len(),
-    ensures map.len() == n.states@.len(), map[0] == 0, map[1] == 1, map[t] < st.len(), !inv.contains_key(0), !inv.contains_key(1),
-        t >= 2 && map[t] != 1 ==> inv.contains_key(map[t] as int) && inv[map[t] as int] == t,
-{ reveal(cwb); }
-
-proof fn lemma_cwb_slot<V>(n: NfaBuilder<char, V>, st: Seq<State>, tb: Seq<u32>, map: Seq<u32>, inv: Map<int, int>, owner: Map<int, int>, done: Set<int>, y: int)
-    requires cwb(n, st, tb, map, inv, owner, done, -1, 0, Seq::empty(), 0), 0 <= y < st.len(),
-    ensures !inv.contains_key(y) ==> st[y].check == 1,
-        inv.contains_key(y) ==> 2 <= inv[y] < n.states@.len() && map[inv[y]] == y && st[y].check == map[nfa_parent(n, inv[y]).0],
-{ reveal(cwb); }
-
-proof fn lemma_cwb_done_edge<V>(n: NfaBuilder<char, V>, st: Seq<State>, tb: Seq<u32>, map: Seq<u32>, inv: Map<int, int>, owner: Map<int, int>, done: Set<int>, s: int, c: char)
-    requires cwb(n, st, tb, map, inv, owner, done, -1, 0, Seq::empty(), 0), done.contains(s), nfa_edges(n, s).contains_key(c),
-    ensures st[map[s] as int].base.is_some(), map[nfa_edges(n, s)[c] as int] == st[map[s] as int].base.unwrap()@ ^ code_of(tb, c),
-{ reveal(cwb); }
-
-proof fn lemma_cwb_map_inj<V>(n: NfaBuilder<char, V>, st: Seq<State>, tb: Seq<u32>, map: Seq<u32>, inv: Map<int, int>, owner: Map<int, int>, done: Set<int>, t1: int, t2: int)
-    requires cwb(n, st, tb, map, inv, owner, done, -1, 0, Seq::empty(), 0), 0 <= t1 < n.states@.len(), 0 <= t2 < n.states@.len(), t1 != 1, t2 != 1,
-        map[t1] != 1, map[t2] != 1, map[t1] == map[t2],
-    ensures t1 == t2,
-{
-    lemma_cwb_basic(n, st, tb, map, inv, owner, done, t1);
-    lemma_cwb_basic(n, st, tb, map, inv, owner, done, t2);
-}
-
-proof fn lemma_cwb_final<V>(n: NfaBuilder<char, V>, st: Seq<State>, stf: Seq<State>, tb: Seq<u32>, map: Seq<u32>, inv: Map<int, int>, owner: Map<int, int>, done: Set<int>)
-    requires cwb(n, st, tb, map, inv, owner, done, -1, 0, Seq::empty(), 0), nfa_tree(n),
-        forall|t: int| 0 <= t < n.states@.len() && t != 1 ==> #[trigger] map[t] != 1 && done.contains(t),
-        stf.len() == st.len(),
-        forall|y: int| 0 <= y < st.len() ==> (#[trigger] stf[y]).base == st[y].base && stf[y].check == st[y].check,
-        forall|s: int| 0 <= s < n.states@.len() && s != 1 ==> (#[trigger] stf[map[s] as int]).fail == (if n.states@[s].fail == 1 { 1u32 } else { map[n.states@[s].fail as int] })
-            && stf[map[s] as int].output_pos == n.states@[s].output_pos,
-    ensures cw_encodes(stf, tb, n, map),
-{
-    let len = n.states@.len();
-    lemma_cwb_basic(n, st, tb, map, inv, owner, done, 0);
-    assert forall|t: int| 0 <= t < len && t != 1 implies (#[trigger] map[t]) < stf.len() && map[t] != 1 by {
-        lemma_cwb_basic(n, st, tb, map, inv, owner, done, t);
-    }
-    assert forall|t1: int, t2: int| 0 <= t1 < len && 0 <= t2 < len && t1 != 1 && t2 != 1 && #[trigger] map[t1] == #[trigger] map[t2] implies t1 == t2 by {
-        lemma_cwb_map_inj(n, st, tb, map, inv, owner, done, t1, t2);
-    }
-    assert forall|s: int, c: char| 0 <= s < len && s != 1 && #[trigger] nfa_edges(n, s).contains_key(c) implies ({
-            let x = map[nfa_edges(n, s)[c] as int];
-            &&& stf[map[s] as int].base.is_some()
-            &&& x == stf[map[s] as int].base.unwrap()@ ^ code_of(tb, c)
-            &&& stf[x as int].check == map[s]
-        }) by {
-        let t = nfa_edges(n, s)[c] as int;
-        lemma_cwb_done_edge(n, st, tb, map, inv, owner, done, s, c);
-        lemma_cwb_basic(n, st, tb, map, inv, owner, done, s);
-        lemma_cwb_basic(n, st, tb, map, inv, owner, done, t);
-        assert(nfa_parent(n, t) == (s, c));
-        lemma_cwb_slot(n, st, tb, map, inv, owner, done, map[t] as int);
-    }
-    assert forall|s: int, mc: u32| 0 <= s < len && s != 1 && stf[map[s] as int].base.is_some()
-            && 0 <= #[trigger] (stf[map[s] as int].base.unwrap()@ ^ mc) < stf.len()
-            && stf[(stf[map[s] as int].base.unwrap()@ ^ mc) as int].check == map[s] implies
-            exists|c: char| nfa_edges(n, s).contains_key(c) && code_of(tb, c) == mc
-                && map[nfa_edges(n, s)[c] as int] == (stf[map[s] as int].base.unwrap()@ ^ mc) by {
-        lemma_cwb_basic(n, st, tb, map, inv, owner, done, s);
-        let b = stf[map[s] as int].base.unwrap()@;
-        let x = (b ^ mc) as int;
-        lemma_cwb_slot(n, st, tb, map, inv, owner, done, x);
-        assert(st[x].check == map[s] && map[s] != 1);
-        assert(inv.contains_key(x));
-        let t = inv[x];
-        let p = nfa_parent(n, t);
-        assert(nfa_parent_ok(n, t, p));
-        lemma_cwb_basic(n, st, tb, map, inv, owner, done, p.0);
-        lemma_cwb_map_inj(n, st, tb, map, inv, owner, done, p.0, s);
-        let c = p.1;
-        lemma_cwb_done_edge(n, st, tb, map, inv, owner, done, s, c);
-        lemma_xor_inj_cw(b, mc, code_of(tb, c));
-        assert(nfa_edges(n, s).contains_key(c) && code_of(tb, c) == mc && map[nfa_edges(n, s)[c] as int] == (b ^ mc));
-    }
-    reveal(cw_encodes);
 }
 
 // pointwise accessors of the opaque cw_encodes
@@ -495,3 +193,4 @@ proof fn lemma_done_grows(done: Set<int>, sid: int, n: int)
     vstd::set_lib::lemma_int_range(0, n);
     vstd::set_lib::lemma_len_subset(done.insert(sid), vstd::set_lib::set_int_range(0, n));
 }
+
